@@ -29,7 +29,7 @@ CASE_TIMEOUT = 120
 OFFSETS = [-5.0, -0.000001, 0.0004, 0.3, 0.9995, 1.0, 1.5, 5.0, 3600.0, 2592000.0]
 PHASES = [0.0, 0.000001, 0.05, 0.1234, 0.25, 0.45, 0.5, 0.6, 0.75, 0.9, 0.999, 0.9999]
 CMODES = ["before", "after:0.01", "after:0.2", "after:0.7", "after:1.1", "afterT", "atT", "pollT"]
-VIAS = ["api", "job_until", "job_by"]
+VIAS = ["api", "job_until", "job_by", "api_rec"]
 
 
 def gen_cases(tier, seed):
@@ -38,6 +38,9 @@ def gen_cases(tier, seed):
     for kind in ("mem", "redis", "rabbit"):
         combos = [(o, p, c, v) for o in OFFSETS for p in PHASES for c in CMODES for v in VIAS]
         combos = [x for x in combos if not (x[3] == "job_by" and x[0] not in (1.0, 1.5, 5.0, 3600.0))]
+        # api_rec: a periodic message (period 1 s) whose stored scheduled time lies further ahead than its period (a retry
+        # back-off longer than the period): the stored time counts
+        combos = [x for x in combos if not (x[3] == "api_rec" and x[0] < 1.5)]
         n = {"quick": 170, "thorough": len(combos)}[tier]
         if n < len(combos):
             # stratified: every offset and every phase present
@@ -179,6 +182,10 @@ async def single(loop, kind, item, lat, seed, out, stats, fps, samples):
         if via == "api":
             P = mb.PARAMETERS_CLASS
             await mb.enqueue(key_of(conn, "m1", "t", "q"), "p", P(delay=DelayProperties(next_execution_time=T)))
+        elif via == "api_rec":
+            P = mb.PARAMETERS_CLASS
+            stats["periodic_messages_scheduled_beyond_their_period"] += 1
+            await mb.enqueue(key_of(conn, "m1", "t", "q"), "p", P(delay=DelayProperties(defer_by=timedelta(seconds=1), next_execution_time=T), retries=P().retries.__class__(max_amount=3, already_tried=1)))
         elif via == "job_until":
             from repid import Job
 
